@@ -94,6 +94,15 @@ def kde_native(vc):
     px = rng.permutation(xs.size)
     vc.ensures("independent_of_evaluation_order", bool(np.allclose(np.asarray(kde(xs[px])), p[px], rtol=1e-12, atol=0)
                                                       and np.allclose(np.asarray(kde.cdf(xs[px])), c[px], rtol=1e-12, atol=1e-15)))
+    # integer-valued evaluation points given with an integer dtype (and Python ints) are points like any other
+    xi = np.unique(np.round(np.linspace(lo, hi, 7)).astype(int))
+    with np.errstate(all="ignore"):
+        p_int, c_int = np.asarray(kde(xi), dtype=float), np.asarray(kde.cdf(xi), dtype=float)
+        p_flt, c_flt = np.asarray(kde(xi.astype(float))), np.asarray(kde.cdf(xi.astype(float)))
+        p_py = float(kde(int(xi[0])))
+    vc.ensures("integer_evaluation_points_agree_with_float_ones",
+               bool(np.allclose(p_int, p_flt, rtol=1e-12, atol=0) and np.allclose(c_int, c_flt, rtol=1e-12, atol=1e-15)
+                    and abs(p_py - float(np.atleast_1d(p_flt)[0])) <= 1e-12 * max(float(np.atleast_1d(p_flt)[0]), 1e-300)))
     vc.ensures("scalar_and_array_agree", bool(all(abs(float(kde(float(v))) - pv) <= 1e-12 * max(pv, 1e-300) for v, pv in zip(xs[:7], p[:7]))))
     # affine equivariance of the bandwidth selection and of the estimate
     if mode in ("rule", "cv"):
